@@ -563,6 +563,8 @@ def oracle_c03(res, lf=None):
         if d.get('pack') != canon:
             fails.append((i, 'serialisation is not the canonical Protocol Buffers encoding of the message (first difference at byte %d)'
                           % next((k // 2 for k in range(0, min(len(canon), len(d.get('pack', ''))), 2) if canon[k:k + 2] != d.get('pack', '')[k:k + 2]), min(len(canon), len(d.get('pack', ''))) // 2)))
+        elif d.get('buf') is not None and d.get('buf') != canon:
+            fails.append((i, 'the bytes streamed by pack_to_buffer are not the canonical Protocol Buffers encoding of the message'))
         pending.append((i, int(pbgen_block(res, i)[0]), orig['ty'], d.get('pack', ''), orig))
         if len(d.get('pack', '')) >= 4:
             distinct.append(h(d['pack']))
